@@ -16,7 +16,7 @@ import (
 func init() {
 	Register(&Property{
 		ID:    "C33",
-		Floor: 60,
+		Floor: 92,
 		Clauses: "QPACK encoder/decoder agreement as structure: for the three field-line representations the encoder's tag byte has exactly the number of leading zeros the decoder dispatches on, " +
 			"both sides use the same prefix lengths in the same order (8/7 section prefix; 6; 4 then 7; 3 then 7), the same T-bit and N-bit masks, masks/tag/H bit/prefix bits are pairwise disjoint, " +
 			"tableType/indexType constants are zero resp. contain every mask used, the decoder hands the dispatched byte to the representation decoder and returns the N bit it read, the encoder forwards itype/name/value and only emits static-table references; " +
@@ -97,7 +97,7 @@ func c33(c *Ctx) {
 	const ST = "(*" + h3 + "stream)."
 	dec := "(*" + h3 + "qpackDecoder).decode"
 	encCB := "(*" + h3 + "qpackEncoder).encode$1"
-	cb := CallsParam(1)
+	cb := CallsOfParam(1)
 
 	wv := map[string]SeqTok{
 		h3 + "appendPrefixedInt":    {Tok: "int", ConstArg: 2, FieldArg: -1},
@@ -153,7 +153,7 @@ func c33(c *Ctx) {
 		c.TokSeqAgree(r.enc, r.dec, wv, rv)
 		// encoder: first primitive call carries the tag
 		var first ssa.CallInstruction
-		EachInstr_h3dns(ef, func(in ssa.Instruction) {
+		ForEachInstr(ef, func(in ssa.Instruction) {
 			if ci, ok := in.(ssa.CallInstruction); ok && first == nil {
 				n := CalleeName(ci.Common())
 				if n == h3+"appendPrefixedInt" || n == h3+"appendPrefixedString" {
@@ -237,7 +237,7 @@ func c33(c *Ctx) {
 		}
 		// decoder masks
 		var dT, dN int64 = -1, -1
-		EachInstr_h3dns(df, func(in ssa.Instruction) {
+		ForEachInstr(df, func(in ssa.Instruction) {
 			call, ok := in.(*ssa.Call)
 			if !ok || len(call.Call.Args) != 1 {
 				return
@@ -257,7 +257,7 @@ func c33(c *Ctx) {
 			c.Check(dT == tm, "wire-masks", r.enc+" ~ "+r.dec+": T-bit mask", df.Pos(), fmt.Sprintf("%#x", tm), fmt.Sprintf("encoder %#x, decoder %#x", tm, dT))
 			// dynamic references are refused: success only under T == static
 			c.Guard(r.dec, RetOK(), fmt.Sprintf("tableTypeForTbit(($0&%d)) == %d", dT, staticT))
-			c.ErrChecked_h3dns(r.dec, Calls(h3+"staticTableEntry"), 1, RetOK())
+			c.ErrChecked(r.dec, Calls(h3+"staticTableEntry"), 1, RetOK())
 		}
 		if r.usesN {
 			c.Check(dN == nm, "wire-masks", r.enc+" ~ "+r.dec+": N-bit mask", df.Pos(), fmt.Sprintf("%#x", nm), fmt.Sprintf("encoder %#x, decoder %#x", nm, dN))
@@ -270,7 +270,7 @@ func c33(c *Ctx) {
 		// every error of the primitives is tested before a successful return
 		for callee, idx := range map[string]int{ST + "readPrefixedIntWithByte": 1, ST + "readPrefixedString": 2, ST + "readPrefixedStringWithByte": 1} {
 			if len(Calls(callee).F(c.P, df)) > 0 {
-				c.ErrChecked_h3dns(r.dec, Calls(callee), idx, RetOK())
+				c.ErrChecked(r.dec, Calls(callee), idx, RetOK())
 			}
 		}
 	}
@@ -291,7 +291,7 @@ func c33(c *Ctx) {
 	if fn := c.MustFn(dec); fn != nil {
 		// errors of the representation decoders
 		for _, r := range reps {
-			c.ErrChecked_h3dns(dec, Calls(r.dec), 3, cb)
+			c.ErrChecked(dec, Calls(r.dec), 3, cb)
 		}
 		// name checks use the very value handed to the callback
 		if sites := cb.F(c.P, fn); len(sites) == 1 {
@@ -300,7 +300,7 @@ func c33(c *Ctx) {
 			c.Reject(dec, cb, "len("+name+") == 0")
 			// pseudo-header after regular field: a boolean merged over the loop is tested under name[0]==':'
 			flag := ""
-			EachInstr_h3dns(fn, func(in ssa.Instruction) {
+			ForEachInstr(fn, func(in ssa.Instruction) {
 				ifi, ok := in.(*ssa.If)
 				if !ok || flag != "" {
 					return
@@ -315,7 +315,7 @@ func c33(c *Ctx) {
 				c.Reject(dec, cb, name+"[0] == 58", flag)
 				// the flag becomes true exactly on the non-pseudo branch
 				okSet := false
-				EachInstr_h3dns(fn, func(in ssa.Instruction) {
+				ForEachInstr(fn, func(in ssa.Instruction) {
 					ph, ok := in.(*ssa.Phi)
 					if !ok || ph.Type().String() != "bool" {
 						return
@@ -362,7 +362,7 @@ func c33(c *Ctx) {
 	}
 	if fn := c.MustFn(im); fn != nil {
 		nUpd, fromTbl := 0, 0
-		EachInstr_h3dns(fn, func(in ssa.Instruction) {
+		ForEachInstr(fn, func(in ssa.Instruction) {
 			if mu, ok := in.(*ssa.MapUpdate); ok {
 				nUpd++
 				if DependsOn(mu.Key, func(v ssa.Value) bool { g, ok := v.(*ssa.Global); return ok && g.Name() == "staticTableEntries" }) {
@@ -397,12 +397,12 @@ func c33(c *Ctx) {
 	// ---- strings and integers
 	rs := ST + "readPrefixedStringWithByte"
 	c.Reject(rs, RetOK(), "$r.lim >= 0", "readPrefixedIntWithByte($r,$0,$1)#0 > $r.lim")
-	c.ErrChecked_h3dns(rs, Calls(ST+"readPrefixedIntWithByte"), 1, RetOK())
-	c.ErrChecked_h3dns(rs, Calls("http2/hpack.HuffmanDecodeToString"), 1, RetOK())
+	c.ErrChecked(rs, Calls(ST+"readPrefixedIntWithByte"), 1, RetOK())
+	c.ErrChecked(rs, Calls("http2/hpack.HuffmanDecodeToString"), 1, RetOK())
 	c.Guard(rs, Calls("http2/hpack.HuffmanDecodeToString"), "($0&(1<<$1)) != 0")
 	if fn := c.MustFn(rs); fn != nil {
 		// every std reader whose error result exists is checked too (ReadAll / ReadFull …)
-		EachInstr_h3dns(fn, func(in ssa.Instruction) {
+		ForEachInstr(fn, func(in ssa.Instruction) {
 			call, ok := in.(*ssa.Call)
 			if !ok {
 				return
@@ -410,12 +410,12 @@ func c33(c *Ctx) {
 			n := CalleeName(&call.Call)
 			if strings.HasPrefix(n, "io.Read") {
 				res := call.Call.Signature().Results()
-				c.ErrChecked_h3dns(rs, Calls(n), res.Len()-1, RetOK())
+				c.ErrChecked(rs, Calls(n), res.Len()-1, RetOK())
 			}
 		})
 	}
 	ri := ST + "readPrefixedIntWithByte"
-	c.ErrChecked_h3dns(ri, Calls("encoding/binary.ReadUvarint"), 1, RetOK())
+	c.ErrChecked(ri, Calls("encoding/binary.ReadUvarint"), 1, RetOK())
 	c.NeverAfter(ri, c.Edge("ReadUvarint($r)#0 > 9223372036854775807-(1<<$1)+1"), RetOK(), true)
 	c.Reject(ST+"readPrefixedInt", Calls(ri), "ReadByte($r)#1 != nil")
 	c.Reject(ST+"readPrefixedString", Calls(rs), "ReadByte($r)#1 != nil")
@@ -448,7 +448,7 @@ func postBaseCaseSetsError(c *Ctx, dec string, k int) {
 	}
 	spec := fmt.Sprintf("LeadingZeros8(ReadByte($0)#0) == %d", k)
 	found, good := false, false
-	EachInstr_h3dns(fn, func(in ssa.Instruction) {
+	ForEachInstr(fn, func(in ssa.Instruction) {
 		ph, ok := in.(*ssa.Phi)
 		if !ok || !types.Identical(ph.Type(), types.Universe.Lookup("error").Type()) {
 			return
@@ -487,7 +487,7 @@ func globalWrittenOnlyIn(c *Ctx, pkg, name, allowed string) {
 	n, bad := 0, ""
 	var pos token.Pos
 	for _, fn := range c.P.All {
-		EachInstr_h3dns(fn, func(in ssa.Instruction) {
+		ForEachInstr(fn, func(in ssa.Instruction) {
 			var g ssa.Value
 			switch x := in.(type) {
 			case *ssa.Store:
